@@ -57,7 +57,18 @@ impl<'a, N: Normalizer> Html5Serializer<'a, N> {
         cdata_section_names: &'a [NameId],
         normalizer: N,
     ) -> Self {
-        let extra_declarations = xot.namespaces_in_scope(node).collect();
+        // A default namespace in scope is only written on the top element if
+        // that element is itself in it; otherwise it is not in effect in the
+        // output, so the elements below must not rely on it.
+        let top_namespace = xot
+            .element(node)
+            .map(|element| xot.namespace_for_name(element.name()));
+        let extra_declarations = xot
+            .namespaces_in_scope(node)
+            .filter(|(prefix, namespace)| {
+                *prefix != xot.empty_prefix() || Some(*namespace) == top_namespace
+            })
+            .collect();
         let fullname_serializer = FullnameSerializer::new(xot, extra_declarations);
         Self {
             xot,
